@@ -307,8 +307,20 @@ func (x *FnExec) verifyFunction() {
 		}
 	}
 	for _, fv := range fn.FreeVars {
+		// a closure verified on its own: captured variables are cells that exist; specs name their entry values
 		v := x.freshVal("free."+fv.Name(), fv.Type())
+		x.inputFacts(st, v, fv.Type())
 		fr.vals[fv] = v
+		if pt, ok := fv.Type().(*types.Pointer); ok {
+			if vt, ok := v.(*Term); ok {
+				x.addFact(x.tc.Not(x.tc.Eq(vt, x.refConst(0))))
+				val := x.load(st, x.ptrPlace(v, fv.Type()))
+				x.inputFacts(st, val, pt.Elem())
+				if _, dup := fr.env[fv.Name()]; !dup {
+					fr.env[fv.Name()] = TV{val, pt.Elem()}
+				}
+			}
+		}
 	}
 	g := x.tc.True()
 	if c.Opts["iremaxioms"] != "" {
